@@ -444,6 +444,7 @@ type c18RMCall struct {
 	In   int  `json:"in,omitempty"`
 	Fail bool `json:"fail,omitempty"`
 	Boom bool `json:"boom,omitempty"` // create panics (recovered by the client goroutine)
+	Set  bool `json:"set,omitempty"`  // instead of Get: Set a fresh resource under a key of its own (concurrent with everybody else)
 }
 
 type c18RMScn struct {
@@ -471,6 +472,8 @@ func (c *c18Closer) Close() error {
 func c18GenRM(r interface{ Intn(int) int }) c18RMScn {
 	sc := c18RMScn{Keys: 1 + r.Intn(3), Sets: r.Intn(3)}
 	booms := r.Intn(2) == 0 // half of the scenarios contain panicking create functions
+	sets := r.Intn(2) == 0  // half contain Set calls racing with Get and with each other
+	tightSets := r.Intn(2) == 0
 	nclients := 2 + r.Intn(7)
 	if r.Intn(8) == 0 {
 		nclients = 16 + r.Intn(33)
@@ -486,6 +489,12 @@ func c18GenRM(r interface{ Intn(int) int }) c18RMScn {
 			rc := c18RMCall{K: r.Intn(sc.Keys), Pre: c18RandDelay(r), In: in, Fail: r.Intn(8) == 0}
 			if booms && r.Intn(8) == 0 {
 				rc.Boom, rc.Fail = true, false
+			}
+			if sets && r.Intn(3) == 0 {
+				rc = c18RMCall{Set: true, Pre: rc.Pre}
+				if tightSets {
+					rc.Pre = 0
+				}
 			}
 			calls = append(calls, rc)
 		}
@@ -503,6 +512,7 @@ func c18RunRM(m *vk.M, idx int, sc c18RMScn) bool {
 		created []*c18Closer // successful creates
 		ncreate int64        // create callbacks entered
 		npanic  int64        // Get calls that panicked (own create, or sharing a panicked flight)
+		nset    int64        // concurrent Set calls
 		nextID  int64
 		wg      sync.WaitGroup
 		start   = make(chan struct{})
@@ -531,6 +541,16 @@ func c18RunRM(m *vk.M, idx int, sc c18RMScn) bool {
 			for j, c := range sc.Clients[ci] {
 				c := c
 				c18Delay(c.Pre)
+				if c.Set {
+					cl := &c18Closer{id: int64(-1000 - ci*100 - j), key: -1}
+					mu.Lock()
+					sets = append(sets, cl)
+					mu.Unlock()
+					rm.Set(fmt.Sprintf("set-c%d-%d", ci, j), cl)
+					atomic.AddInt64(&nset, 1)
+					gots[ci][j] = got{client: ci, idx: j, key: -1, err: c18Err{-2}} // not a Get
+					continue
+				}
 				var res io.Closer
 				var err error
 				// a panicking create reaches its own caller; callers sharing that flight get a
@@ -594,6 +614,9 @@ func c18RunRM(m *vk.M, idx int, sc c18RMScn) bool {
 	inst := map[int]*c18Closer{}
 	for ci := range gots {
 		for _, g := range gots[ci] {
+			if g.key < 0 { // a Set, not a Get
+				continue
+			}
 			ngets++
 			if g.err != nil {
 				nerr++
@@ -630,6 +653,7 @@ func c18RunRM(m *vk.M, idx int, sc c18RMScn) bool {
 	}
 	m.Count("resourcemanager_gets", int64(ngets))
 	m.Count("resourcemanager_get_errors", int64(nerr))
+	m.Count("resourcemanager_concurrent_sets", atomic.LoadInt64(&nset))
 	m.Count("resourcemanager_gets_panicked_and_recovered", atomic.LoadInt64(&npanic))
 	m.Count("resourcemanager_create_callbacks", atomic.LoadInt64(&ncreate))
 	m.Count("resourcemanager_resources_closed", int64(len(created)+len(sets)))
